@@ -14,8 +14,8 @@ import Lattigo.Model.Bootstrap
         → `name/prot/levelQ/levelP;…` (prot: letters r,d,s) or `panic`
   * `layout res= s2c= c2s= cosd= sinc= deg= k= da= inv= rsv= logp=`
         → `qCount,pCount,s2cLevelQ,mod1LevelQ,c2sLevelQ,mod1Depth,checks`
-  * `stages res= s2c= c2s= s2cm= c2sm= m1= rsv=` → levels after ModUp, CoeffsToSlots, EvalMod, SlotsToCoeffs
-  * `output res= s2c= c2s= s2cm= c2sm= m1= rsv= iter= logscale=` → `level,scale`
+  * `stages res= s2c= c2s= m1= rsv=` → levels after ModUp, CoeffsToSlots, EvalMod, SlotsToCoeffs
+  * `output res= s2c= c2s= m1= rsv= iter= logscale=` → `level,scale`
   * `probe …` → `holds`
 -/
 namespace Driver.C18
@@ -49,14 +49,12 @@ def schedLit? (toks : List String) (m1 : Nat) : Option SchedLit := do
   let res ← natArg toks "res"
   let s2c ← natArg toks "s2c"
   let c2s ← natArg toks "c2s"
-  let s2cm := (natArg toks "s2cm").getD s2c
-  let c2sm := (natArg toks "c2sm").getD c2s
   let rsv ← boolArg toks "rsv"
   let logp := match kv? toks "logp" with
     | some "def" => none
     | some s => parseNat? s
     | none => none
-  pure { residualQ := res, s2cGroups := s2c, c2sGroups := c2s, s2cMats := s2cm, c2sMats := c2sm, mod1Depth := m1, reserved := rsv, logPLen := logp }
+  pure { residualQ := res, s2cGroups := s2c, c2sGroups := c2s, mod1Depth := m1, reserved := rsv, logPLen := logp }
 
 def protStr (p : List SecretKind) : String :=
   String.join (p.map fun
